@@ -78,7 +78,7 @@ theorem errOk_mono {E : Env} {A B : List Con} {err : Err} (h : ErrOk E A err) (h
   · exact Or.inl ⟨he, fun hb => hn (hab hb)⟩
   · exact Or.inr hg
 
-theorem clExtremum_spec {G : List Con → List Nat → List Nat → Prop} {E : Env} (hE : OracleExact E) {self self' : Ops} (hs : SelfOk self) (hs' : SelfOk self')
+theorem clExtremum_spec {G : St → Prop} {E : Env} (hE : OracleExact E) {self self' : Ops} (hs : SelfOk self) (hs' : SelfOk self')
     (hsat : self.satisfiable = clSat E self') (hev : self.eval = clEval E self')
     (U : List Con) (s : St) (h : CLInv G U s) (isMax : Bool) (e : Exp) (he : ExpWf e)
     (extra : List Con) (wf : ∀ c ∈ extra, ConWf c) (signed : Bool) :
